@@ -39,7 +39,7 @@ class DataSet(SimpleNamespace):
 
 
 def gen_dataset(rng, system=None, nv=None, nq=None, natoms=None, lattice=None, data_class="power-law", components="needed",
-                static_volumes=None):
+                static_volumes=None, energy_class="bm3"):
     system = system or str(rng.choice(laue.SYSTEMS))
     if static_volumes is None:
         static_volumes = str(rng.choice(["same", "independent", "same-count-shifted"]))
@@ -54,6 +54,11 @@ def gen_dataset(rng, system=None, nv=None, nq=None, natoms=None, lattice=None, d
     volumes = v0 * numpy.linspace(1.08, 0.78, nv) * (1 + rng.uniform(-0.004, 0.004, nv) * (nv > 4))
     volumes = numpy.sort(volumes)[::-1].copy()
     energies = bm3_energy(volumes, v0, k0, kp, e0)
+    if energy_class == "noncubic":
+        # E(V) that is not a cubic in Eulerian strain (fourth/fifth-order finite-strain terms): EoS fits of different orders differ
+        f_ = ((v0 / volumes) ** (2.0 / 3.0) - 1) / 2
+        sub = numpy.random.default_rng(int(abs(e0) * 1e6) % (2 ** 31))
+        energies = energies + 4.5 * v0 * k0 * (sub.uniform(-12, 12) * f_ ** 4 + sub.uniform(-40, 40) * f_ ** 5)
     # spectrum: unique (w0,g0) per mode; moderate anharmonic parameters
     w0 = rng.uniform(80, 1200, size=(nq, np_))
     g0 = rng.uniform(0.3, 2.2, size=(nq, np_))
@@ -114,7 +119,7 @@ def gen_dataset(rng, system=None, nv=None, nq=None, natoms=None, lattice=None, d
     cellmass = float(rng.uniform(40, 600))
     return DataSet(system=system, nv=nv, nq=nq, natoms=natoms, np=np_, v0=v0, k0=k0, kp=kp, e0=e0, volumes=volumes, energies=energies,
                    spec=spec, freqs=freqs, qcoords=qcoords, weights=weights, table_gpa=table, columns=cols, lattice=lat, lattice_exponents=lat_s,
-                   cellmass=cellmass, data_class=data_class, static_volumes=svol)
+                   cellmass=cellmass, data_class=data_class, static_volumes=svol, energy_class=energy_class)
 
 
 def _needed_subset(rng, system, nonzero):
@@ -127,7 +132,7 @@ def _needed_subset(rng, system, nonzero):
     return S
 
 
-def gen_settings(rng, ds, interpolator=None, order=None, nt=None, dt=None, tmin=None, ntv=None, volume_ratio=None, use_system=True):
+def gen_settings(rng, ds, interpolator=None, order=None, nt=None, dt=None, tmin=None, ntv=None, volume_ratio=None, use_system=True, eos_order=3):
     interpolator = interpolator or "lsq_poly"
     orders = admissible_orders(interpolator, ds.nv)
     order = order if order is not None else int(rng.choice(orders))
@@ -140,7 +145,7 @@ def gen_settings(rng, ds, interpolator=None, order=None, nt=None, dt=None, tmin=
           "NT": int(nt if nt is not None else rng.integers(2, 17)),
           "NTV": int(ntv if ntv is not None else rng.integers(8, 81)),
           "DT_SAMPLE": None, "DELTA_P_SAMPLE": None,
-          "P_MIN": 0.0, "DELTA_P": 1.0, "order": 3, "static_only": False,
+          "P_MIN": 0.0, "DELTA_P": 1.0, "order": int(eos_order), "static_only": False,
           "volume_ratio": float(volume_ratio if volume_ratio is not None else rng.choice([1.05, 1.2, 1.4]))}
     qs["DT_SAMPLE"] = qs["DT"]
     es = {"mode_gamma": {"interpolator": interpolator, "order": int(order)}}
